@@ -154,6 +154,26 @@ class TextSemantics(object):
     FLAGS = {"I": "IGNORECASE", "IGNORECASE": "IGNORECASE", "A": "ASCII", "ASCII": "ASCII", "U": "UNICODE", "UNICODE": "UNICODE", "M": "MULTILINE", "MULTILINE": "MULTILINE", "S": "DOTALL", "DOTALL": "DOTALL", "X": "VERBOSE", "VERBOSE": "VERBOSE"}
 
     def ext_hook(self, st, dotted, args, kwargs, node, module):
+        if dotted == "itertools.groupby" and len(args) == 1 and not kwargs:
+            # runs of equal adjacent elements over conditionally present objects: element i opens a
+            # run when it is present and the nearest present element before it is not equal to it
+            from .interp import ListObj, TupleVal, mk_and, mk_not, mk_or
+
+            items = self.ev.iter_values(st, args[0], node, module)
+            if items and all(self.is_token(v) for _, v in items):
+                out = []
+                for i, (gi, vi) in enumerate(items):
+                    same_prev = []
+                    for j in range(i):
+                        gj, vj = items[j]
+                        between = [mk_not(items[m][0]) for m in range(j + 1, i)]
+                        same_prev.append(mk_and([gj] + between + [self.ev.compare_sym(st, "==", vj, vi, node, module, False)]))
+                    opens = mk_and([gi, mk_not(mk_or(same_prev))]) if same_prev else gi
+                    out.append((opens, TupleVal([vi, Opaque("group")])))
+                lo = ListObj(out)
+                lo.one_shot = True
+                lo.iterator = True
+                return self.ev.alloc(st, lo)
         if dotted == "re.compile":
             flags = list(args[1:]) + ([kwargs["flags"]] if "flags" in kwargs else [])
             return self._regex(args[0], flags, node, module)
